@@ -11,6 +11,7 @@ MCOps ==
   \cup {[op |-> "append", rows |-> <<<<1, 0>>>>]}
   \cup {[op |-> "remove_rows", col |-> c, v |-> v] : c \in {"stmt_id", "name"}, v \in {1, 2}}
   \cup {[op |-> "rename_column", old |-> "name", new |-> "name2"], [op |-> "rename_column", old |-> "name2", new |-> "name"]}
+  \cup {[op |-> "rename_map", map |-> <<<<"stmt_id", "name">>, <<"name", "stmt_id">>>>]}
   \cup {[op |-> "slice", a |-> 1, b |-> 3], [op |-> "slice", a |-> 0, b |-> 2]}
   \cup {[op |-> "reset_index"], [op |-> "fillna", v |-> 2]}
   \cup {[op |-> "access", pos |-> p] : p \in {0, 2}}
